@@ -62,7 +62,7 @@ func both(a, b int) (int, int) {
 	return a, b
 }
 
-//garble:controlflow flatten_passes=1 junk_jumps=4 block_splits=4 trash_blocks=6
+//garble:controlflow flatten_passes=1 junk_jumps=4 block_splits=4TRASH
 func trashed(xs []int, name string, f float64) int {
 	sum := len(name) + int(f)
 	for i, x := range xs {
@@ -103,7 +103,7 @@ func main() {
 
 def build_cold(E, base, files, gflags, env, tag, srcname="src", tmpname=None, pflag=None, debugdir=False):
     """one build in caches that never saw the module; returns (sha256, dict(debugdir files) or None, stderr)"""
-    C = c06.CacheSet(E, "cold_" + tag, base)
+    C = c06.CacheSet(E, "cold_" + tag, base, link_go=True)
     root = os.path.join(E.scratch, srcname)
     shutil.rmtree(root, ignore_errors=True)
     c06.write_prog(root, files)
@@ -151,7 +151,8 @@ def main(tier, replay=None):
         rnd = random.Random(chk.seed * 59 + 7)
         prog = progen.gen_program(rnd, nsnip=7, toolchain=True, must=[progen.s_asm, progen.s_generics])
         gen_files = prog.render()
-        ctrl_files = {"go.mod": "module gv.test/ctrl\n\ngo 1.26\n", "main.go": CTRL_MAIN}
+        ctrl_files = {"go.mod": "module gv.test/ctrl\n\ngo 1.26\n", "main.go": CTRL_MAIN.replace("block_splits=4TRASH", "block_splits=4")}
+        trash_files = {"go.mod": "module gv.test/ctrl\n\ngo 1.26\n", "main.go": CTRL_MAIN.replace("block_splits=4TRASH", "block_splits=4 trash_blocks=6")}
         CF = {"GARBLE_EXPERIMENTAL_CONTROLFLOW": "1"}
         SEED = "-seed=o9WDTZ4CN4w"
         configs = [("default", [], None, gen_files), ("-literals -seed", ["-literals", SEED], None, gen_files),
@@ -210,7 +211,7 @@ def main(tier, replay=None):
                         # the obfuscated source is an intermediate: a difference there with identical binaries is reported as a note
                         chk.notes.append("garbled sources differ between cold builds (%s): %s" % (label, diff[:4]))
             # warm and partially filled caches: build, drop some of garble's own entries, rebuild
-            W = c06.CacheSet(E, "warm", base)
+            W = c06.CacheSet(E, "warm", base, link_go=True)
             root = os.path.join(E.scratch, "warm_src"); shutil.rmtree(root, ignore_errors=True); c06.write_prog(root, files)
             hs = []
             for step in ("fill", "warm", "partial"):
@@ -232,6 +233,34 @@ def main(tier, replay=None):
                     st["identical_binaries"] += 1
                 else:
                     fails.append({"why": "the binary depends on the cache state", "detail": {"config": label, "cache": step}, "key": "cache-state-differs:" + label})
+        # trash blocks import packages the function's package does not import; garble finds their archives through the action
+        # graph as $WORK/bNNN/_pkg_.a, which only exists when that package is compiled in the same invocation
+        T = c06.CacheSet(E, "trash", base, link_go=True)
+        troot = os.path.join(E.scratch, "trash_src"); c06.write_prog(troot, trash_files)
+        r = E.run_garble([SEED], ["build", "-o", "out_bin", "."], troot, T.env(CF))
+        st["cold_builds"] += 1
+        chk.count_cases(["trash|warm std cache"])
+        if r.returncode != 0:
+            fails.append({"why": "a build with trash_blocks fails when the standard library comes from a warm GOCACHE (it succeeds when everything is rebuilt): the outcome depends on the cache state",
+                          "detail": {"stderr": r.stderr[-400:]}, "key": "trash-needs-rebuilt-dependency" if "could not import" in r.stderr else "build-fails:trash"})
+        T.drop()
+        if tier == "thorough":
+            hs = []
+            for k in range(3):
+                A = c06.CacheSet(E, "trash_a%d" % k, base, link_go=True)
+                aroot = os.path.join(E.scratch, "trash_a_src%d" % k); c06.write_prog(aroot, trash_files)
+                r = E.run_garble([SEED], ["build", "-a", "-o", "out_bin", "."], aroot, A.env(CF))
+                st["cold_builds"] += 1
+                chk.count_cases(["trash|-a|%d" % k])
+                if r.returncode == 0:
+                    hs.append(e2e.sha256_file(os.path.join(aroot, "out_bin")))
+                else:
+                    fails.append({"why": "the build fails", "detail": {"config": "trash_blocks -a", "stderr": r.stderr[-600:]}, "key": "build-fails:trash -a"})
+                A.drop()
+            if len(set(hs)) > 1:
+                fails.append({"why": "two full builds with trash_blocks and the same -seed give different binaries", "detail": {"hashes": hs}, "key": "binary-differs:trash_blocks"})
+            else:
+                st["identical_binaries"] += len(hs)
         chk.add_sample({"config": configs[0][0], "variation": variations[1][0]})
         base.drop()
     finally:
